@@ -484,7 +484,7 @@ def run(rep, tier, seed):
     jobs = [(states, lo, min(len(states), lo + step)) for lo in range(0, len(states), step)]
     pn = pc = 0
     pf = []
-    for n, cases, fails in pmap(_pairs_work, jobs):
+    for n, cases, fails in dyn.pmap_w('pairs', _pairs_work, jobs):
         pn += n
         pc += cases
         pf.extend(fails)
@@ -553,3 +553,6 @@ def run(rep, tier, seed):
         rule='evaluation = one (component instance, triple) comparison with the reference; triples are distinct by '
         'construction; non-trivial = universe triples whose grid has a non-floor cell, plus every arbitrary-pair triple',
     )
+
+
+WORKERS = {'pairs': _pairs_work}
